@@ -71,6 +71,7 @@ func checkC16(c *Check, a *Anchors) {
 	errorBranchExits(c, a, "error-branch-exits")
 	noSlotHeldAcrossRecursion(c, a, "no-slot-held-across-recursion")
 	deepCopyNilSafe(c, a, "deepcopy-nil-safe")
+	reflectIsNilGuarded(c, a, "reflect-isnil-guarded")
 	recursionReviewed(c, a, "recursion-reviewed") // termination of loading / merging / compiling: the recursions are the only unbounded construct besides the reviewed loops
 }
 
@@ -229,8 +230,8 @@ func shapeOf(info *types.Info, e ast.Expr) string {
 }
 
 var otherReviewed = map[string]string{
-	"internal/deepcopy.TraverseStringsFunc|copy.Interface().(T)":         "the copy is created with reflect.New(original.Type()), so it has the static type T",
-	"taskfile.(*Reader).include$1|edge.Properties.Data.([]*ast.Include)": "edge data is only ever written by this function as []*ast.Include",
+	"pkg internal/deepcopy|copy.Interface().(T)":         "the copy is created with reflect.New(original.Type()), so it has the static type T",
+	"pkg taskfile|edge.Properties.Data.([]*ast.Include)": "edge data of the include graph is only ever written by the reader, as []*ast.Include",
 	"taskfile.init|panic":   "init-time registration of the embedded syntax-highlighting style / lexer; independent of user input",
 	"taskfile.init#2|panic": "init-time registration of the embedded syntax-highlighting style / lexer; independent of user input",
 }
@@ -259,6 +260,11 @@ func c16OtherPanics(c *Check, a *Anchors) {
 			}
 			if reason, ok := otherReviewed[k]; ok {
 				c.OK("panic-sites-reviewed", key, pos, "reviewed: "+reason)
+				return
+			}
+			// reviewed per package and expression (the reason is about the value, not about the function it is written in)
+			if reason, ok := otherReviewed["pkg "+strings.TrimPrefix(fb.Pkg.PkgPath, Mod+"/")+"|"+expr]; ok && kind != "panic" {
+				c.OK("panic-sites-reviewed", ordinal(ord, "pkg "+strings.TrimPrefix(fb.Pkg.PkgPath, Mod+"/")+"|"+expr), pos, "reviewed: "+reason)
 				return
 			}
 			if strings.HasPrefix(fnDisplay(fb), "taskfile.init") && kind == "panic" {
